@@ -2905,6 +2905,13 @@ impl Context {
                 let is_function = matches!(bodyv.as_ref(), Value::Function(_));
 
                 let ptr = if !is_global && !is_function {
+                    // A plain variable read hands out the references of the variable it reads;
+                    // the new local is released at scope exit, so it needs references of its own.
+                    if matches!(body.to_expr(), Expr::Var(_))
+                        && (t.to_type().contains_boxed() || t.to_type().contains_function())
+                    {
+                        self.insert_clone_recursively(bodyv.clone(), t);
+                    }
                     // ローカル変数の場合、常にAllocaとStoreを使う
                     let ptr = self.push_inst(Instruction::Alloc(t));
                     self.push_inst(Instruction::Store(ptr.clone(), bodyv, t));
